@@ -116,7 +116,11 @@ def run(ctx):
             opts["size"] = ln + rng.choice([1, 7, ln])
             final = "commit"
         elif point == "reject_size_more":
-            opts["size"] = max(0, ln - rng.choice([1, min(ln, 3)]))
+            # fewer bytes declared than supplied: by a few, by half, by most - with any chunking, so that whole chunks
+            # may arrive after the declared size has been crossed
+            opts["size"] = rng.choice([x for x in (ln - 1, ln - min(ln, 3), ln // 2, ln // 10, 1) if 0 <= x < ln])
+            if rng.random() < 0.6:
+                chunks = gen.split(data, gen.chunking(rng, ln)[1])
             final = "commit"
         elif point == "reject_integrity":
             opts["sri"] = ref.sri("sha256", data + b"x")
